@@ -725,3 +725,78 @@ def exec_ldroutes(spec, env):
         c = sm.Differential(z).at(mk())
         return bool(a == b) and bool(b == a) and bool(a == c) and bool(c == b) and bool(_h(a) == _h(b)) and bool(_h(b) == _h(c))
     return [rt.outcome(run)]
+
+
+# ------------------------------------------------------------------------------------------ inductive cache lemma (C09)
+
+def all_nodes(roots, sm):
+    seen, out = set(), []
+
+    def walk(e):
+        if id(e) in seen or not isinstance(e, sm.Expression):
+            return
+        seen.add(id(e))
+        out.append(e)
+        for v in vars(e).values():
+            if isinstance(v, sm.Expression):
+                walk(v)
+            elif isinstance(v, (list, tuple)):
+                for x in v:
+                    walk(x)
+    for r in roots:
+        walk(r)
+    return out
+
+
+def memo_fields(sm, E):
+    """names of the per-node attributes that an evaluation / a derivative query writes (found by diffing __dict__, no names assumed)"""
+    pool = POOLS["A"](E, {})
+    nodes = all_nodes(list(pool.values()), sm)
+    before = [dict(vars(n)) for n in nodes]
+    p = sm.Point(x=2, y=3)
+    for e in pool.values():
+        rt.outcome(lambda: e.at(p))
+        rt.outcome(lambda: sm.Partial(e, "x").at(p))
+        rt.outcome(lambda: sm.LocatedDifferential(e, p))
+    fields = set()
+    for n, b in zip(nodes, before):
+        for k, v in vars(n).items():
+            if k not in b or (b[k] is not v and b[k] != v):
+                fields.add(k)
+    return sorted(fields)
+
+
+@concrete.register("anycache")
+def exec_anycache(spec, env):
+    """the memo fields of EVERY node of the pool are overwritten with arbitrary content (None or an arbitrary number, chosen by the solver /
+    given by the replay inputs) before the operation: the induction step that covers histories of any length"""
+    sm, E = rt.ns()
+    pts = _points(spec, env, sm)
+    fields = memo_fields(sm, E)
+    objs = POOLS[spec["pool"]](E, env)
+    nodes = all_nodes([objs[k] for k in sorted(objs)], sm)
+    # which memo fields hold (arbitrary) content: one of four patterns chosen by the solver - all, every other, only the first, only the last -
+    # (a fork per field would give 2^k identical evaluations); the CONTENT of every field is an independent symbolic number
+    slots = [(n, f) for n in nodes for f in fields if f in vars(n)]
+    pat = env.get("pattern", 0)
+    which = None
+    for cand in (0, 1, 2, 3):
+        if bool(pat == cand):
+            which = cand
+            break
+    for k, (n, f) in enumerate(slots):
+        chosen = {0: True, 1: k % 2 == 0, 2: k == 0, 3: k == len(slots) - 1, None: False}[which]
+        if chosen and f"m{k}" in env:
+            setattr(n, f, env[f"m{k}"])
+    out = run_op(spec["op"], objs, pts, sm, E)
+    fobjs = POOLS[spec["pool"]](E, env)
+    fresh = run_op(spec["op"], fobjs, pts, sm, E)
+    outs = [out, fresh]
+    a, b = out, fresh
+    if a["kind"] == b["kind"] == "value" and isinstance(a["value"], Shown) and isinstance(b["value"], Shown):
+        x, y = a["value"].x, b["value"].x
+        outs.append(rt.outcome(lambda: bool(x == y) and bool(y == x)))
+    else:
+        outs.append({"kind": "value", "value": None})
+    outs.append({"kind": "value", "value": fields})
+    return outs
